@@ -1,4 +1,5 @@
 import IpcModel.Lemmas.RouterProof
+import IpcModel.Lemmas.RouterDispatch
 /-!
 # C07 — router: each routed message reaches its handler once, in order; then it is freed
 
@@ -6,12 +7,21 @@ One-step dispatch theorems over the router thread model, for every state: togeth
 say that the effects concerning route `r` are exactly `invoke r m₁ … invoke r m_k` for the messages delivered on r's
 receiver-set id, in that order, followed by one `dropH r` at its closure, and that no other route is affected.
 
-Full statement, of which the theorems below are the inductive steps (the end-to-end induction over whole operation
-histories is **not yet** stated as one theorem — `C07_dispatch_partial`): for every history of `add_route` calls, traffic
-and closures, `(log restricted to r) = map (invoke r) (messages sent on r, in order) ++ [dropH r]`.
+`C07_dispatch` is the end-to-end statement over whole event streams: for every history of registrations, traffic and
+closures, `(log restricted to r) = map (invoke r) (messages reported for r's id, in order) ++ [dropH r]?`; the one-step
+theorems below are its building blocks.  The event stream itself (each member's messages in order, then one closure) is
+the receiver set's contract (C06); messages queued before registration are reported after it, so they are covered.
 -/
 namespace C07
 open Router
+
+/-- **C07_dispatch** — over every event stream that does not stop the router: the effects concerning route `r` are exactly
+one `invoke r t` per message reported for its id, in order, followed by one `dropH r` iff the id's closure was reported;
+other members' events, other routes' registrations and wake-ups contribute nothing to it. -/
+theorem C07_dispatch (es : List Ev) {st : St} (hi : RInv st) {id r : Nat} (hl : lookup st.handlers id = some r) (hnc : Ev.wakeClosed ∉ es) :
+    routeLog r (run fixed st es).log
+      = routeLog r st.log ++ (proj id es).1.map (Eff.invoke r) ++ (if (proj id es).2 then [Eff.dropH r] else []) :=
+  dispatch_run es hi hl hnc
 
 /-- a message event for a registered id invokes exactly the handler registered for that id, once; registrations unchanged -/
 theorem C07_dispatch_partial_msg (st : St) (id tag r : Nat) (hs : st.stopped = false) (hr : routeOf st id = some r) :
